@@ -272,6 +272,14 @@ def explore(rng, tier, replay=None):
                                       "correspondence": "C02/dec"}, True))
         violations.append(("harness does not build or run on this tree: " + str(ex)[-400:],
                            {"kind": "error", "error": str(ex)[-4000:]}, False))
+    try:
+        from checks import c01
+        fv, fstats = c01.fetch_slice(rng, tier)
+        violations += fv
+        ctx["fetch_slice"] = fstats
+        ctx["evaluations"] = ctx.get("evaluations", 0) + fstats["fetch_cases"]
+    except RuntimeError as ex:
+        violations.append(("fetch slice could not run: " + str(ex)[-300:], {"kind": "error", "error": str(ex)[-2000:]}, False))
     ctx["violations"] = violations + ctx.get("violations", [])
     return ctx
 
